@@ -852,6 +852,14 @@ class Surface:
             z = off_axis_conic_sag(c, k, r, t, dx=dx, dy=dy)
             dr, dt = off_axis_conic_der(c, k, r, t, dx=dx, dy=dy)
             ddx, ddy = surface_normal_from_cylindrical_derivatives(dr, dt, r, t)
+            # at the local origin the azimuth is undefined and the surface is not
+            # symmetric about it; there the slopes along x and y are the radial
+            # slopes towards +x (t=0) and +y (t=pi/2)
+            origin = r == 0
+            if np.any(origin):
+                t0 = np.zeros_like(r)
+                ddx = np.where(origin, off_axis_conic_der(c, k, r, t0, dx=dx, dy=dy)[0], ddx)
+                ddy = np.where(origin, off_axis_conic_der(c, k, r, t0 + np.pi/2, dx=dx, dy=dy)[0], ddy)
             return z, ddx, ddy
 
         return cls(typ=typ, P=P, n=n, FFp=FFp, R=R, params=params, bounding=bounding)
